@@ -39,6 +39,8 @@ struct GPool {
     default_shard: String,
     default_role: String,
     auth_query: bool,
+    /// auth_query settings written incompletely: index of the one left out (0 query, 1 user, 2 password)
+    aq_missing: Option<usize>,
     extra: Vec<String>,
 }
 
@@ -110,6 +112,8 @@ fn gen(rng: &mut Rng, cell: &mut Cell) -> GCfg {
             shards.push(GShard { key: k.clone(), servers, dup_server: dup });
         }
         let auth_query = rng.chance(1, 6);
+        // (an incomplete auth_query section configures no auth query: users still need passwords)
+        let aq_missing = if !auth_query && rng.chance(1, 8) { Some(rng.below(3) as usize) } else { None };
         let nusers = rng.range(1, 2);
         let mut users = vec![];
         for ui in 0..nusers {
@@ -152,7 +156,10 @@ fn gen(rng: &mut Rng, cell: &mut Cell) -> GCfg {
             extra.push("query_parser_enabled = false".into());
             defects.insert("rw_split_without_parser".into());
         }
-        pools.push(GPool { name, shards, users, default_shard, default_role: default_role.into(), auth_query, extra });
+        if aq_missing.is_some() {
+            defects.insert("auth_query_incomplete".into());
+        }
+        pools.push(GPool { name, shards, users, default_shard, default_role: default_role.into(), auth_query, aq_missing, extra });
     }
     GCfg { pools, defects }
 }
@@ -170,6 +177,14 @@ fn to_toml(g: &GCfg, cell: &Cell, port: u16) -> String {
         }
         if p.auth_query {
             s.push_str("auth_query = \"SELECT usename, passwd FROM pg_shadow WHERE usename='$1'\"\nauth_query_user = \"aq\"\nauth_query_password = \"aqpw\"\n");
+        }
+        if let Some(k) = p.aq_missing {
+            let lines = ["auth_query = \"SELECT usename, passwd FROM pg_shadow WHERE usename='$1'\"\n", "auth_query_user = \"aq\"\n", "auth_query_password = \"aqpw\"\n"];
+            for (i, l) in lines.iter().enumerate() {
+                if i != k {
+                    s.push_str(l);
+                }
+            }
         }
         for u in &p.users {
             s.push_str(&format!("\n[pools.{}.users.{}]\nusername = \"{}\"\npool_size = 2\n", p.name, u.key, u.name));
@@ -401,7 +416,7 @@ pub fn run(tier: &str) -> i32 {
         "C15",
         tier,
         "exploration",
-        "config = generated over a bounded grammar: 1-2 pools, 1-2 users (password present/absent, auth_query on/off), shard key sets {contiguous, from 1, gap, leading zero, duplicate after parsing, negative, non-numeric}, 1-3 servers per shard with roles {primary, replica, misspelt}, duplicates, 0-2 primaries, default_shard {shard_k valid/invalid, random, random_healthy, junk}, default_role valid/invalid, regex valid/invalid, rw-split without parser; one fresh pgcat per config; oracle = accept/reject (process listens vs exits) vs the generator's defect class, then a servability sweep (every selectable shard x role x user, default shard, admin commands) against mocks labelled pool.shardkey.role; distinct = (defect class, accepted/rejected)",
+        "config = generated over a bounded grammar: 1-2 pools, 1-2 users (password present/absent, auth_query on/off/one of its three settings left out), shard key sets {contiguous, from 1, gap, leading zero, duplicate after parsing, negative, non-numeric}, 1-3 servers per shard with roles {primary, replica, misspelt}, duplicates, 0-2 primaries, default_shard {shard_k valid/invalid, random, random_healthy, junk}, default_role valid/invalid, regex valid/invalid, rw-split without parser; one fresh pgcat per config; oracle = accept/reject (process listens vs exits) vs the generator's defect class, then a servability sweep (every selectable shard x role x user, default shard, admin commands) against mocks labelled pool.shardkey.role; distinct = (defect class, accepted/rejected)",
     );
     let thorough = rep.thorough();
     let n = if thorough { 8000 } else { 800 };
